@@ -232,7 +232,8 @@ class Pool():
         if self._map_guard:
             raise RuntimeError('recursive map!')
         if not set(self._get_all_workers_ids()).difference(self._closed): # no workers
-            return
+            # returning silently would look like a successful run in which nothing was processed
+            raise PoolError('Pool has no workers that could process the input', partial_results=([] if return_results else None))
 
         try:
             self._map_guard = True
